@@ -331,6 +331,11 @@ class Context:
 
         def get_prototype_of(*args):
             obj = args[0] if args else UNDEFINED
+            if isinstance(obj, JSFunction):
+                # script functions are linked to Function.prototype implicitly
+                fn_ctor = self._globals.get("Function")
+                proto = fn_ctor.get("prototype") if isinstance(fn_ctor, JSObject) else NULL
+                return proto if isinstance(proto, JSObject) else NULL
             if not isinstance(obj, JSObject):
                 return NULL
             return getattr(obj, "_prototype", NULL) or NULL
@@ -1074,7 +1079,7 @@ class Context:
         fn_constructor = JSCallableObject(function_constructor_fn)
 
         # Function.prototype - add basic methods
-        fn_prototype = JSObject()
+        fn_prototype = JSObject(self._object_prototype)
 
         # These are implemented in VM's _get_property for JSFunction
         # but we still set them here for completeness
